@@ -138,9 +138,13 @@ def roundtrip(cd):
     from code_data import CodeData
 
     r = {"to_exc": "", "dumps_exc": "", "from_exc": "", "eq": False, "hash": False, "code": False, "code_exc": "",
-         "tree": ["x", "none"], "doc": None}
+         "tree": ["x", "none"], "doc": None, "pure_to": True, "pure_from": True, "repeat_eq": True, "alias": False}
+    from .api import deep_fp
+
     try:
+        before = json.dumps(deep_fp(cd), sort_keys=True)
         doc = cd.to_json_data()
+        r["pure_to"] = json.dumps(deep_fp(cd), sort_keys=True) == before
     except BaseException as ex:  # noqa
         r["to_exc"] = type(ex).__name__
         return r, None
@@ -153,8 +157,19 @@ def roundtrip(cd):
         r["dumps_exc"] = type(ex).__name__
         return r, doc
     try:
-        back = CodeData.from_json_data(json.loads(text))
+        parsed = json.loads(text)
+        snap = json.dumps(deep_fp(parsed), sort_keys=True)
+        back = CodeData.from_json_data(parsed)
+        r["pure_from"] = json.dumps(deep_fp(parsed), sort_keys=True) == snap
+        again = CodeData.from_json_data(parsed)          # the same document a second time
+        r["repeat_eq"] = again == back and json.dumps(deep_fp(parsed), sort_keys=True) == snap
         back2 = CodeData.from_json_data(json.loads(text2))
+        # mutating the returned document must not reach the data it came from, nor a later document
+        doc_a = cd.to_json_data()
+        _scribble(doc_a)
+        doc_b = cd.to_json_data()
+        r["alias"] = json.dumps(deep_fp(cd), sort_keys=True) != before or \
+            json.dumps(deep_fp(doc_b), sort_keys=True) != json.dumps(deep_fp(doc), sort_keys=True)
     except BaseException as ex:  # noqa
         r["from_exc"] = type(ex).__name__
         return r, doc
@@ -170,6 +185,18 @@ def roundtrip(cd):
     except BaseException as ex:  # noqa
         r["code_exc"] = type(ex).__name__
     return r, doc
+
+
+def _scribble(x):
+    """mutate every container of a document in place"""
+    if type(x) is dict:
+        for v in list(x.values()):
+            _scribble(v)
+        x["__scribble__"] = 1
+    elif type(x) is list:
+        for v in x:
+            _scribble(v)
+        x.append("__scribble__")
 
 
 def carrier(value, pos):
